@@ -23,6 +23,7 @@ type client struct {
 	nlSend, nlRecv, nlClose, newNetlink, toWire, fromWire, setPID              *ssa.Function
 	fPending, fClearPID, fCloseOnce, fNetlink, fSeq, fPid, fReadBuf            *types.Var
 	nsr                                                                        *types.Named
+	serializeErr                                                               error
 	ok                                                                         bool
 	sysc                                                                       map[string]string // syscall constants by name
 }
@@ -58,7 +59,13 @@ func loadClient(r *Run, w *World) *client {
 	x.getStatusAsync, x.getRules = m("AuditClient", "GetStatusAsync"), m("AuditClient", "GetRules")
 	x.deleteRule, x.deleteRules, x.addRule = m("AuditClient", "DeleteRule"), m("AuditClient", "DeleteRules"), m("AuditClient", "AddRule")
 	x.recvAudit, x.setPID = m("AuditClient", "Receive"), m("AuditClient", "SetPID")
-	x.parseErr, x.parseMsg, x.serialize = fn("ParseNetlinkError"), fn("parseNetlinkAuditMessage"), fn("serialize")
+	x.parseErr, x.parseMsg = fn("ParseNetlinkError"), fn("parseNetlinkAuditMessage")
+	// serialize is needed by the framing rules (C18.R1/R2) only; its absence must not stop the others
+	if f, err := w.Func("libaudit", "serialize"); err == nil {
+		x.serialize = f
+	} else {
+		x.serializeErr = err
+	}
 	x.nlSend, x.nlRecv, x.nlClose = m("NetlinkClient", "Send"), m("NetlinkClient", "Receive"), m("NetlinkClient", "Close")
 	x.newNetlink = fn("NewNetlinkClient")
 	x.toWire, x.fromWire = m("AuditStatus", "toWireFormat"), m("AuditStatus", "FromWireFormat")
@@ -88,7 +95,7 @@ func loadClient(r *Run, w *World) *client {
 	if x.ok {
 		r.UseFn(fnName(x.getReply), fnName(x.set), fnName(x.waitACKs), fnName(x.closeFn), fnName(x.getStatus),
 			fnName(x.getStatusAsync), fnName(x.getRules), fnName(x.deleteRule), fnName(x.deleteRules), fnName(x.addRule), fnName(x.recvAudit),
-			fnName(x.parseErr), fnName(x.parseMsg), fnName(x.serialize), fnName(x.nlSend), fnName(x.nlRecv), fnName(x.nlClose), fnName(x.newNetlink),
+			fnName(x.parseErr), fnName(x.parseMsg), fnName(x.nlSend), fnName(x.nlRecv), fnName(x.nlClose), fnName(x.newNetlink),
 			fnName(x.toWire), fnName(x.fromWire))
 	}
 	return x
@@ -1002,7 +1009,9 @@ func propC18(r *Run, w *World) {
 	szc := x.sysc["SizeofNlMsghdr"]
 	// R1 serialize
 	r.Rule("C18.R1", "serialize: Header.Len = SizeofNlMsghdr + len(Data); the buffer has that length; the header is written through a view of offset 0; Data is copied to b[SizeofNlMsghdr:]", 5)
-	{
+	if x.serialize == nil {
+		r.Anchor(x.serializeErr)
+	} else {
 		fn := x.serialize
 		r.Check(len(fn.Blocks) == 1, "serialize is straight-line", fn.Pos(), "", "serialize has branches")
 		var msgLoc string
@@ -1122,7 +1131,10 @@ func propC18(r *Run, w *World) {
 			sts := storesTo(fn, msgLoc+".Header.Seq")
 			r.Check(len(sts) == 1 && Term(sts[0].Val) == "seq", "Header.Seq = seq", fn.Pos(), "", "Header.Seq is not the value of the atomic add")
 			sends := callsNamedIn(fn, "syscall.Sendto")
-			sers := callsIn(fn, x.serialize)
+			var sers []ssa.CallInstruction
+			if x.serialize != nil {
+				sers = callsIn(fn, x.serialize)
+			}
 			okS := len(sends) == 1 && len(sers) == 1 && len(sts) == 1
 			if okS {
 				okS = sends[0].Common().Args[1] == sers[0].Value() && Term(sers[0].Common().Args[0]) == msgLoc &&
